@@ -20,8 +20,8 @@ structure Addr where
 
 def Addr.width (a : Addr) : Nat := if a.v6 then 128 else 32
 
-/-- the top `len` bits of an address -/
-def Addr.top (a : Addr) (len : Nat) : Nat := a.val / 2 ^ (a.width - len)
+/-- the top `len` bits of an address (no bits at all for `len = 0`) -/
+def Addr.top (a : Addr) (len : Nat) : Nat := if len = 0 then 0 else a.val / 2 ^ (a.width - len)
 
 /-- "no bits set to the right of the mask" -/
 def Addr.normalized (a : Addr) (mask : Nat) : Bool :=
